@@ -15,7 +15,7 @@
 (*                                                                         *)
 (* Abstract state: m = function key -> [id, exp], id = 0 meaning absent.   *)
 (* A value is identified by the id of the put that wrote it; its size is   *)
-(* 2^(id-1) bytes, so a sum of sizes identifies the set of values.         *)
+(* 1 + 3*id bytes (distinct per id).                                       *)
 (***************************************************************************)
 EXTENDS Integers, Sequences, FiniteSets
 
@@ -27,7 +27,7 @@ Err  == [k |-> "err", v |-> 0]
 ResOf(o) == [k |-> o.rk, v |-> o.rv]
 
 Absent == [id |-> 0, exp |-> FALSE]
-SizeOf(id) == 2 ^ (id - 1)
+SizeOf(id) == 1 + 3 * id      \* as drv_conc sizes its values: distinct per id
 Empty(K) == [k \in K |-> Absent]
 
 RECURSIVE SumOf(_, _)
